@@ -528,7 +528,9 @@ def _after_stmt(s):
     if k == "match" and s.get("src") in ("Normal", "Postfix"):
         div = [a for a in s["arms"] if diverges(a["body"]) and "guard" not in a]
         if div and len(div) < len(s["arms"]):
-            return [{"kind": "not-arms", "scrut": s["scrut"], "pats": [a["pat"] for a in div], "match": s}]
+            return [{"kind": "not-arms", "scrut": s["scrut"], "pats": [a["pat"] for a in div], "match": s},
+                    {"kind": "in-arms", "scrut": s["scrut"], "pats": [a["pat"] for a in s["arms"] if a not in div and "guard" not in a], "match": s,
+                     "all_unguarded": all("guard" not in a for a in s["arms"] if a not in div)}]
     if k == "let" and "els" in s:
         return [{"kind": "letelse", "pat": s["pat"], "init": s["init"]}]
     return []
@@ -795,7 +797,7 @@ def pat_matches(p, v):
     if k in ("pts", "pstruct"):
         # a variant pattern whose sub-patterns bind or ignore: decided by the variant alone
         subs = p.get("pats") if k == "pts" else [f["p"] for f in p.get("fields", [])]
-        if v[0] == "enum" and all(q.get("k") in ("pbind", "pwild") for q in (subs or [])):
+        if v[0] == "enum" and all(q.get("k") in ("pbind", "pwild") or (q.get("k") == "ptuple" and not q.get("pats")) for q in (subs or [])):
             return pat_path(p) == v[1]
         return False if v[0] == "other" else None
     if k == "ptuple":
